@@ -313,6 +313,8 @@ def _glyph_removeComponent(ex, st, self, args, kwargs, node):
     j = z3.Int(fresh_name("rmj"))
     st.assume(z3.And(idx >= 0, idx < n, s[idx] == cz))
     st.assume(z3.ForAll([j], z3.Implies(z3.And(j >= 0, j < idx), s[j] != cz)))
+    # (the same position, spelled out for the common case "c is the head": spares the solvers the detour through the quantifier)
+    idx = z3.If(z3.And(n > 0, s[0] == cz), z3.IntVal(0), idx)
     res = _pos_seq(st, comps.ty, n - 1, lambda k: z3.If(k < idx, s[k], s[k + 1]), "removed")
     ex.write_field(st, self, "components", Val(comps.ty, res), node)
     return Val.const(None)
